@@ -23,10 +23,11 @@ UNITS = ['Channel', 'channel', 'RFI', 'rfi', 'a.u.', 'A.U.', 'au', 'AU', 'MEF', 
 
 def cells_events(rec, nfl):
     rng = np.random.Generator(np.random.PCG64(rec['seed']))
-    n, R = rec['n'], 1024
-    fsc = rng.normal(500, 70, n)
-    ssc = rng.normal(400, 60, n)
-    fl = [rng.normal(300 + 120 * j, 70, n) for j in range(nfl)]
+    n, R = rec['n'], int(rec.get('res', 1024))
+    k = R / 1024.0
+    fsc = rng.normal(500, 70, n) * k
+    ssc = rng.normal(400, 60, n) * k
+    fl = [rng.normal(300 + 120 * j, 70, n) * k for j in range(nfl)]
     t = np.sort(rng.integers(0, R, n)).astype(float)
     if rec['datatype'] == 'I':
         # saturated events in scatter and fluorescence channels, inside the part that survives start_end
@@ -84,7 +85,7 @@ def file_spec(rec, inst):
     pnv = [str(v) for v in volt[:D - 1]] + [None]
     png = [None] * D if dt == 'I' else (['1.0', '1.0'] + ['2.0'] * len(fl) + [None])
     return dict(version='FCS3.0', datatype=dt, byteord='1,2,3,4' if dt == 'F' else '4,3,2,1',
-                widths=[16 if dt == 'I' else 32] * D, ranges=[1024] * D, names=names, pne=pne, pnv=pnv, png=png,
+                widths=[16 if dt == 'I' else 32] * D, ranges=[int(rec.get('res', 1024))] * D, names=names, pne=pne, pnv=pnv, png=png,
                 events=ev, extra=[['$TIMESTEP', '0.1'], ['$BTIM', '12:00:00'], ['$ETIM', '12:05:00'], ['$DATE', '01-JAN-2020']])
 
 
@@ -181,7 +182,8 @@ def experiment(draw, max_inst=3, max_beads=2, max_samples=4, min_samples=1, with
         dt = draw(st.sampled_from(['I', 'I', 'F'])) if with_float else 'I'
         fname = 'cells%d.fcs' % (k + 1)
         files[fname] = dict(kind='cells', instrument=inst['id'], seed=draw(st.integers(0, 2 ** 16)),
-                            n=draw(st.sampled_from([450, 600, 750, 900])), datatype=dt)
+                            n=draw(st.sampled_from([450, 600, 750, 900])), datatype=dt,
+                            res=draw(st.sampled_from([1024, 1024, 256, 4096])) if dt == 'I' else 1024)
         mybeads = [b for b in beads if b['instrument'] == inst['id']]
         b = draw(st.sampled_from(mybeads)) if mybeads else None
         units = {}
